@@ -4,6 +4,7 @@ mod dump;
 mod history;
 mod io;
 mod panicx;
+mod totp;
 mod rng;
 mod tree;
 
@@ -111,6 +112,8 @@ fn main() {
         "history" => history::run(&mut ctx),
         "ioread" => io::run_read(&mut ctx),
         "iowrite" => io::run_write(&mut ctx),
+        "totp" => totp::run(&mut ctx),
+        "selftest" => ctx.emit(serde_json::json!({"op": "selftest", "real": {"vectors": []}})),
         _ => {
             eprintln!("unknown op {}", op);
             std::process::exit(2);
